@@ -1,1 +1,490 @@
-// placeholder
+//! rscel's public AST -> span-free `Shape`, and a walker that yields every node with its
+//! source range (for C18).
+
+use crate::expr::{SPat, SSeg, Shape};
+use crate::val::V;
+use rscel::{
+    AddOp, Addition, AstNode, ConditionalAnd, ConditionalOr, Expr, ExprList, LiteralsAndKeywords,
+    MatchCmpOp, MatchPattern, MatchTypePattern, Member, MemberPrime, MultOp, Multiplication,
+    NegList, NotList, ObjInits, Primary, Relation, Relop, SourceRange, Unary,
+};
+
+pub fn shape_expr(e: &Expr) -> Shape {
+    match e {
+        Expr::Ternary {
+            condition,
+            true_clause,
+            false_clause,
+        } => Shape::Tern(
+            Box::new(shape_or(condition.node())),
+            Box::new(shape_or(true_clause.node())),
+            Box::new(shape_expr(false_clause.node())),
+        ),
+        Expr::Match { condition, cases } => Shape::Match(
+            Box::new(shape_expr(condition.node())),
+            cases
+                .iter()
+                .map(|c| {
+                    let c = c.node();
+                    (shape_pat(c.pattern.node()), shape_expr(c.expr.node()))
+                })
+                .collect(),
+        ),
+        Expr::Unary(o) => shape_or(o.node()),
+    }
+}
+
+fn shape_pat(p: &MatchPattern) -> SPat {
+    match p {
+        MatchPattern::Any(_) => SPat::Any,
+        MatchPattern::Type(t) => SPat::Type(
+            match t.node() {
+                MatchTypePattern::Int => "int",
+                MatchTypePattern::Uint => "uint",
+                MatchTypePattern::Float => "float",
+                MatchTypePattern::String => "string",
+                MatchTypePattern::Bool => "bool",
+                MatchTypePattern::Bytes => "bytes",
+                MatchTypePattern::List => "list",
+                MatchTypePattern::Object => "object",
+                MatchTypePattern::Null => "null",
+                MatchTypePattern::Timestamp => "timestamp",
+                MatchTypePattern::Duration => "duration",
+            }
+            .to_string(),
+        ),
+        MatchPattern::Cmp { op, or } => SPat::Cmp(
+            match op.node() {
+                MatchCmpOp::Eq => "==",
+                MatchCmpOp::Neq => "!=",
+                MatchCmpOp::Gt => ">",
+                MatchCmpOp::Ge => ">=",
+                MatchCmpOp::Lt => "<",
+                MatchCmpOp::Le => "<=",
+            }
+            .to_string(),
+            shape_or(or.node()),
+        ),
+    }
+}
+
+pub fn shape_or(o: &ConditionalOr) -> Shape {
+    match o {
+        ConditionalOr::Binary { lhs, rhs } => Shape::Bin(
+            "||".into(),
+            Box::new(shape_or(lhs.node())),
+            Box::new(shape_and(rhs.node())),
+        ),
+        ConditionalOr::Unary(a) => shape_and(a.node()),
+    }
+}
+
+fn shape_and(o: &ConditionalAnd) -> Shape {
+    match o {
+        ConditionalAnd::Binary { lhs, rhs } => Shape::Bin(
+            "&&".into(),
+            Box::new(shape_and(lhs.node())),
+            Box::new(shape_rel(rhs.node())),
+        ),
+        ConditionalAnd::Unary(a) => shape_rel(a.node()),
+    }
+}
+
+pub fn relop_sym(op: &Relop) -> &'static str {
+    match op {
+        Relop::Le => "<=",
+        Relop::Lt => "<",
+        Relop::Ge => ">=",
+        Relop::Gt => ">",
+        Relop::Eq => "==",
+        Relop::Ne => "!=",
+        Relop::In => "in",
+    }
+}
+
+fn shape_rel(o: &Relation) -> Shape {
+    match o {
+        Relation::Binary { lhs, op, rhs } => Shape::Bin(
+            relop_sym(op).into(),
+            Box::new(shape_rel(lhs.node())),
+            Box::new(shape_add(rhs.node())),
+        ),
+        Relation::Unary(a) => shape_add(a.node()),
+    }
+}
+
+fn shape_add(o: &Addition) -> Shape {
+    match o {
+        Addition::Binary { lhs, op, rhs } => Shape::Bin(
+            match op {
+                AddOp::Add => "+",
+                AddOp::Sub => "-",
+            }
+            .into(),
+            Box::new(shape_add(lhs.node())),
+            Box::new(shape_mul(rhs.node())),
+        ),
+        Addition::Unary(a) => shape_mul(a.node()),
+    }
+}
+
+fn shape_mul(o: &Multiplication) -> Shape {
+    match o {
+        Multiplication::Binary { lhs, op, rhs } => Shape::Bin(
+            match op {
+                MultOp::Mult => "*",
+                MultOp::Div => "/",
+                MultOp::Mod => "%",
+            }
+            .into(),
+            Box::new(shape_mul(lhs.node())),
+            Box::new(shape_unary(rhs.node())),
+        ),
+        Multiplication::Unary(a) => shape_unary(a.node()),
+    }
+}
+
+fn not_len(n: &NotList) -> usize {
+    match n {
+        NotList::List { tail } => 1 + not_len(tail.node()),
+        NotList::EmptyList => 0,
+    }
+}
+
+fn neg_len(n: &NegList) -> usize {
+    match n {
+        NegList::List { tail } => 1 + neg_len(tail.node()),
+        NegList::EmptyList => 0,
+    }
+}
+
+fn shape_unary(u: &Unary) -> Shape {
+    match u {
+        Unary::Member(m) => shape_member(m.node()),
+        Unary::NotMember { nots, member } => {
+            Shape::Not(not_len(nots.node()), Box::new(shape_member(member.node())))
+        }
+        Unary::NegMember { negs, member } => {
+            Shape::Neg(neg_len(negs.node()), Box::new(shape_member(member.node())))
+        }
+    }
+}
+
+fn shape_exprlist_rev(l: &ExprList) -> Vec<Shape> {
+    // the parser stores call arguments in reverse order
+    l.exprs.iter().rev().map(|e| shape_expr(e.node())).collect()
+}
+
+fn shape_member(m: &Member) -> Shape {
+    let mut cur = shape_primary(m.primary.node());
+    for p in &m.member {
+        cur = match p.node() {
+            MemberPrime::MemberAccess { ident } => Shape::Field(Box::new(cur), ident.node().0.clone()),
+            MemberPrime::Call { call } => Shape::Call(Box::new(cur), shape_exprlist_rev(call.node())),
+            MemberPrime::ArrayAccess { access } => {
+                Shape::Index(Box::new(cur), Box::new(shape_expr(access.node())))
+            }
+            MemberPrime::Empty => cur,
+        };
+    }
+    cur
+}
+
+fn shape_objinits(o: &ObjInits) -> Vec<(Shape, Shape)> {
+    o.inits
+        .iter()
+        .map(|i| (shape_expr(i.node().key.node()), shape_expr(i.node().value.node())))
+        .collect()
+}
+
+fn shape_primary(p: &Primary) -> Shape {
+    match p {
+        Primary::Type => Shape::Ident("<type>".into()),
+        Primary::Ident(i) => Shape::Ident(i.0.clone()),
+        Primary::Parens(e) => shape_expr(e.node()),
+        Primary::ListConstruction(l) => {
+            Shape::List(l.node().exprs.iter().map(|e| shape_expr(e.node())).collect())
+        }
+        Primary::ObjectInit(o) => Shape::Map(shape_objinits(o.node())),
+        Primary::Literal(l) => shape_lit(l),
+    }
+}
+
+fn shape_lit(l: &LiteralsAndKeywords) -> Shape {
+    match l {
+        LiteralsAndKeywords::NullLit => Shape::Lit(V::Null.canon()),
+        LiteralsAndKeywords::IntegerLit(i) => Shape::Lit(V::Int(*i).canon()),
+        LiteralsAndKeywords::UnsignedLit(u) => Shape::Lit(V::UInt(*u).canon()),
+        LiteralsAndKeywords::FloatingLit(f) => Shape::Lit(V::F(*f).canon()),
+        LiteralsAndKeywords::StringLit(s) => Shape::Lit(V::Str(s.clone()).canon()),
+        LiteralsAndKeywords::ByteStringLit(b) => Shape::Lit(V::Bytes(b.clone()).canon()),
+        LiteralsAndKeywords::BooleanLit(b) => Shape::Lit(V::Bool(*b).canon()),
+        LiteralsAndKeywords::FStringList(segs) => {
+            // the segment type is not nameable from outside the crate: go through serde
+            let j = serde_json::to_value(segs).unwrap_or(serde_json::Value::Null);
+            let mut out = Vec::new();
+            if let Some(a) = j.as_array() {
+                for s in a {
+                    if let Some(l) = s.get("Lit").and_then(|x| x.as_str()) {
+                        out.push(SSeg::Lit(l.to_string()));
+                    } else if let Some(e) = s.get("Expr").and_then(|x| x.as_str()) {
+                        out.push(SSeg::Expr(e.to_string()));
+                    }
+                }
+            }
+            Shape::FStr(out)
+        }
+        other => Shape::Ident(format!("<{:?}>", other)),
+    }
+}
+
+pub fn shape_of(ast: &AstNode<Expr>) -> Shape {
+    shape_expr(ast.node())
+}
+
+// ---------------------------------------------------------------------------
+// Span walker
+
+#[derive(Clone, Copy, Debug, PartialEq, Eq)]
+pub enum Kind {
+    /// Expr .. Primary: the span must be exact
+    Expr,
+    /// NotList / NegList: look-ahead dependent by construction; only "inside the source"
+    OpRun,
+    /// MemberPrime (postfix piece), ExprList, ObjInits, ObjInit, MatchCase, Ident of a field
+    Part,
+    /// match pattern nodes: not checked (the project does not consume them)
+    Pattern,
+}
+
+#[derive(Clone, Debug)]
+pub struct SpanNode {
+    pub kind: Kind,
+    pub label: &'static str,
+    /// (start line, start col, end line, end col) in characters
+    pub range: (usize, usize, usize, usize),
+    pub parent: Option<usize>,
+    /// expression nodes carry the normalised shape of the subtree they represent
+    pub shape: Option<Shape>,
+    /// a wrapper level that denotes the same sub-expression as its only child
+    /// (Expr::Unary(ConditionalOr::Unary(..)) chains): siblings are counted below it
+    pub transparent: bool,
+}
+
+pub fn rng(r: SourceRange) -> (usize, usize, usize, usize) {
+    (r.start().line(), r.start().col(), r.end().line(), r.end().col())
+}
+
+pub struct Walker {
+    pub nodes: Vec<SpanNode>,
+}
+
+impl Walker {
+    fn push(
+        &mut self,
+        kind: Kind,
+        label: &'static str,
+        r: SourceRange,
+        parent: Option<usize>,
+        shape: Option<Shape>,
+        transparent: bool,
+    ) -> usize {
+        self.nodes.push(SpanNode {
+            kind,
+            label,
+            range: rng(r),
+            parent,
+            shape,
+            transparent,
+        });
+        self.nodes.len() - 1
+    }
+
+    pub fn expr(&mut self, n: &AstNode<Expr>, parent: Option<usize>) {
+        let sh = shape_expr(n.node());
+        match n.node() {
+            Expr::Unary(o) => {
+                let me = self.push(Kind::Expr, "Expr", n.range(), parent, Some(sh), true);
+                self.or(o, Some(me));
+            }
+            Expr::Ternary {
+                condition,
+                true_clause,
+                false_clause,
+            } => {
+                let me = self.push(Kind::Expr, "Ternary", n.range(), parent, Some(sh), false);
+                self.or(condition, Some(me));
+                self.or(true_clause, Some(me));
+                self.expr(false_clause, Some(me));
+            }
+            Expr::Match { condition, cases } => {
+                let me = self.push(Kind::Expr, "Match", n.range(), parent, Some(sh), false);
+                self.expr(condition, Some(me));
+                for c in cases {
+                    let cn = self.push(Kind::Part, "MatchCase", c.range(), Some(me), None, false);
+                    let pat = &c.node().pattern;
+                    let pn = self.push(Kind::Pattern, "MatchPattern", pat.range(), Some(cn), None, false);
+                    if let MatchPattern::Cmp { or, .. } = pat.node() {
+                        self.or(or, Some(pn));
+                    }
+                    self.expr(&c.node().expr, Some(cn));
+                }
+            }
+        }
+    }
+
+    fn or(&mut self, n: &AstNode<ConditionalOr>, parent: Option<usize>) {
+        let sh = shape_or(n.node());
+        match n.node() {
+            ConditionalOr::Unary(a) => {
+                let me = self.push(Kind::Expr, "Or", n.range(), parent, Some(sh), true);
+                self.and(a, Some(me));
+            }
+            ConditionalOr::Binary { lhs, rhs } => {
+                let me = self.push(Kind::Expr, "Or", n.range(), parent, Some(sh), false);
+                self.or(lhs, Some(me));
+                self.and(rhs, Some(me));
+            }
+        }
+    }
+
+    fn and(&mut self, n: &AstNode<ConditionalAnd>, parent: Option<usize>) {
+        let sh = shape_and(n.node());
+        match n.node() {
+            ConditionalAnd::Unary(a) => {
+                let me = self.push(Kind::Expr, "And", n.range(), parent, Some(sh), true);
+                self.rel(a, Some(me));
+            }
+            ConditionalAnd::Binary { lhs, rhs } => {
+                let me = self.push(Kind::Expr, "And", n.range(), parent, Some(sh), false);
+                self.and(lhs, Some(me));
+                self.rel(rhs, Some(me));
+            }
+        }
+    }
+
+    fn rel(&mut self, n: &AstNode<Relation>, parent: Option<usize>) {
+        let sh = shape_rel(n.node());
+        match n.node() {
+            Relation::Unary(a) => {
+                let me = self.push(Kind::Expr, "Rel", n.range(), parent, Some(sh), true);
+                self.add(a, Some(me));
+            }
+            Relation::Binary { lhs, rhs, .. } => {
+                let me = self.push(Kind::Expr, "Rel", n.range(), parent, Some(sh), false);
+                self.rel(lhs, Some(me));
+                self.add(rhs, Some(me));
+            }
+        }
+    }
+
+    fn add(&mut self, n: &AstNode<Addition>, parent: Option<usize>) {
+        let sh = shape_add(n.node());
+        match n.node() {
+            Addition::Unary(a) => {
+                let me = self.push(Kind::Expr, "Add", n.range(), parent, Some(sh), true);
+                self.mul(a, Some(me));
+            }
+            Addition::Binary { lhs, rhs, .. } => {
+                let me = self.push(Kind::Expr, "Add", n.range(), parent, Some(sh), false);
+                self.add(lhs, Some(me));
+                self.mul(rhs, Some(me));
+            }
+        }
+    }
+
+    fn mul(&mut self, n: &AstNode<Multiplication>, parent: Option<usize>) {
+        let sh = shape_mul(n.node());
+        match n.node() {
+            Multiplication::Unary(a) => {
+                let me = self.push(Kind::Expr, "Mul", n.range(), parent, Some(sh), true);
+                self.unary(a, Some(me));
+            }
+            Multiplication::Binary { lhs, rhs, .. } => {
+                let me = self.push(Kind::Expr, "Mul", n.range(), parent, Some(sh), false);
+                self.mul(lhs, Some(me));
+                self.unary(rhs, Some(me));
+            }
+        }
+    }
+
+    fn unary(&mut self, n: &AstNode<Unary>, parent: Option<usize>) {
+        let sh = shape_unary(n.node());
+        match n.node() {
+            Unary::Member(m) => {
+                let me = self.push(Kind::Expr, "Unary", n.range(), parent, Some(sh), true);
+                self.member(m, Some(me));
+            }
+            Unary::NotMember { nots, member } => {
+                let me = self.push(Kind::Expr, "Unary", n.range(), parent, Some(sh), false);
+                self.push(Kind::OpRun, "NotList", nots.range(), Some(me), None, false);
+                self.member(member, Some(me));
+            }
+            Unary::NegMember { negs, member } => {
+                let me = self.push(Kind::Expr, "Unary", n.range(), parent, Some(sh), false);
+                self.push(Kind::OpRun, "NegList", negs.range(), Some(me), None, false);
+                self.member(member, Some(me));
+            }
+        }
+    }
+
+    fn member(&mut self, n: &AstNode<Member>, parent: Option<usize>) {
+        let sh = shape_member(n.node());
+        let m = n.node();
+        let me = self.push(Kind::Expr, "Member", n.range(), parent, Some(sh), m.member.is_empty());
+        self.primary(&m.primary, Some(me));
+        for p in &m.member {
+            let pn = self.push(Kind::Part, "MemberPrime", p.range(), Some(me), None, false);
+            match p.node() {
+                MemberPrime::MemberAccess { ident } => {
+                    self.push(Kind::Part, "FieldIdent", ident.range(), Some(pn), None, false);
+                }
+                MemberPrime::Call { call } => {
+                    let ln = self.push(Kind::Part, "ExprList", call.range(), Some(pn), None, false);
+                    for a in call.node().exprs.iter().rev() {
+                        self.expr(a, Some(ln));
+                    }
+                }
+                MemberPrime::ArrayAccess { access } => {
+                    self.expr(access, Some(pn));
+                }
+                MemberPrime::Empty => {}
+            }
+        }
+    }
+
+    fn primary(&mut self, n: &AstNode<Primary>, parent: Option<usize>) {
+        let sh = shape_primary(n.node());
+        match n.node() {
+            Primary::Parens(e) => {
+                let me = self.push(Kind::Expr, "Parens", n.range(), parent, Some(sh), false);
+                self.expr(e, Some(me));
+            }
+            Primary::ListConstruction(l) => {
+                let me = self.push(Kind::Expr, "ListLit", n.range(), parent, Some(sh), false);
+                let ln = self.push(Kind::Part, "ExprList", l.range(), Some(me), None, false);
+                for e in &l.node().exprs {
+                    self.expr(e, Some(ln));
+                }
+            }
+            Primary::ObjectInit(o) => {
+                let me = self.push(Kind::Expr, "MapLit", n.range(), parent, Some(sh), false);
+                let on = self.push(Kind::Part, "ObjInits", o.range(), Some(me), None, false);
+                for i in &o.node().inits {
+                    let inn = self.push(Kind::Part, "ObjInit", i.range(), Some(on), None, false);
+                    self.expr(&i.node().key, Some(inn));
+                    self.expr(&i.node().value, Some(inn));
+                }
+            }
+            _ => {
+                self.push(Kind::Expr, "Atom", n.range(), parent, Some(sh), false);
+            }
+        }
+    }
+}
+
+pub fn walk(ast: &AstNode<Expr>) -> Vec<SpanNode> {
+    let mut w = Walker { nodes: Vec::new() };
+    w.expr(ast, None);
+    w.nodes
+}
